@@ -35,15 +35,15 @@ class C02(Prop):
             "hash of the rendered text")
     ASSUMPTIONS = ["expected doubles come from Python float() (correctly rounded), independent of the C library's strtod",
                    "only the C locale exists in this sandbox"]
-    REQUIRED_CLASSES = ["escape", "nonascii", "fraction_or_exponent", "depth>=2", "duplicate_key", "bom",
+    REQUIRED_CLASSES = ["long_string>=1000", "escape", "nonascii", "fraction_or_exponent", "depth>=2", "duplicate_key", "bom",
                         "depth=limit", "surrogate_pair", "escape_sweep_code_points", "wide_shallow>limit"]
 
     def budget(self, tier):
         return {"workers": 14, "examples": 1200 if tier == "quick" else 12000}
 
     def strategy(self, tier):
-        leaves = gens.scalars_text()
-        keys = st.one_of(gens.utf8_strings(6), gens.ascii_keys(3))
+        leaves = gens.scalars_text(strings=gens.with_long(gens.utf8_strings()))
+        keys = gens.with_long(st.one_of(gens.utf8_strings(6), gens.ascii_keys(3)), 120)
         docs = st.one_of(
             gens.documents(leaves, keys, max_leaves=24),
             gens.documents(leaves, keys, max_leaves=6),
@@ -119,6 +119,8 @@ class C02(Prop):
         if case["bom"]:
             classes.add("bom")
         for n in model.walk_jv(jv):
+            if (n[0] == "S" and len(n[1]) >= 1000) or (n[0] == "O" and any(len(k) >= 1000 for k, _ in n[1])):
+                classes.add("long_string>=1000")
             if n[0] == "L" and any(c in n[1] for c in ".eE"):
                 classes.add("fraction_or_exponent")
             if n[0] == "O":
